@@ -117,7 +117,13 @@ var (
 	//
 	//	logit("Invalid user %.100s from %.100s port %d",
 	//	    user, ssh_remote_ipaddr(ssh), ssh_remote_port(ssh));
-	invalidUserRE = regexp.MustCompile(`Invalid user (?P<Username>\S+) from (?P<Source>\S+) port (?P<Port>\d+)`)
+	//
+	// The user name is chosen by the client and may contain anything,
+	// including spaces and text that looks like " from <addr> port <n>".
+	// The name is therefore matched greedily from the start of the
+	// message, so that the address and port are always the ones sshd
+	// appended at the end.
+	invalidUserRE = regexp.MustCompile(`^Invalid user (?P<Username>.*) from (?P<Source>\S+) port (?P<Port>\d+)`)
 
 	// notInAllowUsersRE matches the sshd AllowUsers violation message,
 	// allowing us to extract information about the login violation.
